@@ -4,9 +4,10 @@ import MypyVerif.Model.ErrPos
 /-!
 Line-protocol driver for the C14 models (model files only).  One JSON value per line in, one per line out.
 
-  ["args", [posonly…], [args…], vararg|null, [kwonly…], [kwdefault id|null …], kwarg|null, [default id…], special]
+  ["args", [posonly…], [args…], vararg|null, [kwonly…], [kwdefault id|null …], kwarg|null, [default id…], special, native]
         → {"args": [[name, kindIndex, posOnly, defaultId|null]…], "names": [name|null…], "dup": index|null}
-          (transform_args, then the special-method loop of do_func_def, arg_names, check_param_names)
+          (transform_args [native = true: the variant the native front end delivers], then the special-method
+           loop of do_func_def / read_func_def, arg_names, check_param_names)
   ["kind", n]                 → ARG_KINDS[n] as the model's kind index, null when out of range
   ["tag", text|null]          → null (invalid) | [code…]          (parse_type_ignore_tag)
   ["cfg", source]             → [[line, text]…]                   (get_mypy_comments)
@@ -39,7 +40,7 @@ def runArgs (a : List Json) : Json :=
       vararg := jOptChars (nth a 3), kwonlyargs := (jArr (nth a 4)).map jChars,
       kwDefaults := (jArr (nth a 5)).map jOptNat, kwarg := jOptChars (nth a 6),
       defaults := (jArr (nth a 7)).map jNat }
-  let out := funcDefArgs (jBool (nth a 8)) (transformArgs ar)
+  let out := funcDefArgs (jBool (nth a 8)) (if jBool (nth a 9) then transformArgsNative ar else transformArgs ar)
   Json.mkObj [
     ("args", Json.arr (out.map fun x =>
         Json.arr #[outStr x.name, Json.num (x.kind.index : Int), Json.bool x.posOnly, outOptNat x.default]).toArray),
